@@ -24,6 +24,9 @@ pub open spec fn flatten(ps: Seq<BlockPartition>) -> Seq<StmtSemi>
     if ps.len() == 0 { Seq::empty() } else { flatten(ps.drop_last()) + part_stmts(ps.last()) }
 }
 pub open spec fn part_nonempty(p: BlockPartition) -> bool { part_stmts(p).len() > 0 }
+pub open spec fn group_all_local(p: BlockPartition) -> bool {
+    match p { BlockPartition::RequiresGroup(_, l) => forall|i: int| 0 <= i < l@.len() ==> (#[trigger] l@[i]).1.0 is LocalAssignment, _ => true }
+}
 pub open spec fn from_prefix(x: StmtSemi, s: Seq<StmtSemi>, n: int) -> bool { exists|j: int| 0 <= j < n && #[trigger] s[j] == x }
 """
 
@@ -37,6 +40,87 @@ VERIF = r"""
 #[verifier::external_body] pub fn stmt_end_line(s: &StmtSemi) -> (r: usize) ensures r == end_line(*s) { unimplemented!() /* previous_require.1.end_position().expect(..).line() */ }
 #[verifier::external_body] pub fn line_gap_over_one(current_line: usize, previous_line: usize) -> (r: bool) { unimplemented!() /* current_line - previous_require_line > 1 */ }
 #[verifier::external_body] pub fn clone_pair(s: &StmtSemi) -> (r: StmtSemi) ensures r == *s { unimplemented!() }
+"""
+
+SPEC2 = r"""
+// ---- sort_requires: what may be emitted for each part, with the ignore-region context threaded through ----
+pub uninterp spec fn la_core(l: LocalAssignment) -> int;     // a local assignment modulo the leading trivia of `local`
+pub uninterp spec fn other_core(s: Stmt) -> int;
+pub open spec fn core_of(x: StmtSemi) -> (int, Option<TokenReference>) {
+    match x.0 { Stmt::LocalAssignment(l) => (la_core(l), x.1), _ => (other_core(x.0), x.1) }
+}
+pub open spec fn stmts_of(l: Seq<(String, StmtSemi)>) -> Seq<StmtSemi> { l.map_values(|x: (String, StmtSemi)| x.1) }
+pub open spec fn cores(s: Seq<StmtSemi>) -> Seq<(int, Option<TokenReference>)> { s.map_values(|x: StmtSemi| core_of(x)) }
+pub uninterp spec fn name_le(a: Seq<char>, b: Seq<char>) -> bool;      // String's Ord
+pub open spec fn names_sorted(l: Seq<(String, StmtSemi)>) -> bool { forall|i: int, j: int| 0 <= i < j < l.len() ==> name_le(#[trigger] l[i].0@, #[trigger] l[j].0@) }
+pub open spec fn all_local(l: Seq<(String, StmtSemi)>) -> bool { forall|i: int| 0 <= i < l.len() ==> (#[trigger] l[i]).1.0 is LocalAssignment }
+pub open spec fn pkey(x: StmtSemi) -> NodeKey { NodeKey::Pair(x.0, x.1) }
+// the context after walking over the statements s (ignore start / end toggles folded from the left)
+pub open spec fn ctx_fold(c: Context, s: Seq<StmtSemi>) -> Context
+    decreases s.len()
+{
+    if s.len() == 0 { c } else { toggle(ctx_fold(c, s.drop_last()), pkey(s.last())) }
+}
+// some statement of s is ignored / outside the range under the context in force at that statement
+pub open spec fn any_skip(c: Context, s: Seq<StmtSemi>) -> bool
+    decreases s.len()
+{
+    if s.len() == 0 { false } else { any_skip(c, s.drop_last()) || !(decision(ctx_fold(c, s), pkey(s.last())) is Normal) }
+}
+// what sort_requires may emit for one part
+pub open spec fn part_ok(c: Context, p: BlockPartition, seg: Seq<StmtSemi>) -> bool {
+    match p {
+        BlockPartition::Other(l) => seg == l@,
+        BlockPartition::RequiresGroup(_, l) =>
+            if any_skip(c, stmts_of(l@)) { seg == stmts_of(l@) }     // a group containing an ignored statement is left alone
+            else { exists|l2: Seq<(String, StmtSemi)>| #[trigger] stmts_of(l2) == seg && l2.len() == l@.len() && names_sorted(l2)
+                       && cores(stmts_of(l2)).to_multiset() == cores(stmts_of(l@)).to_multiset() },
+    }
+}
+pub open spec fn emits(c0: Context, parts: Seq<BlockPartition>, out: Seq<StmtSemi>) -> bool
+    decreases parts.len()
+{
+    if parts.len() == 0 { out.len() == 0 }
+    else {
+        let n = part_stmts(parts.last()).len() as int;
+        out.len() >= n && emits(c0, parts.drop_last(), out.take(out.len() - n))
+            && part_ok(ctx_fold(c0, flatten(parts.drop_last())), parts.last(), out.skip(out.len() - n))
+    }
+}
+pub open spec fn sorted_from(c: Context, ins: Seq<StmtSemi>, out: Seq<StmtSemi>) -> bool {
+    exists|parts: Seq<BlockPartition>| flatten(parts) == ins && #[trigger] emits(c, parts, out)
+}
+pub proof fn lemma_ctx_fold_append(c: Context, a: Seq<StmtSemi>, b: Seq<StmtSemi>)
+    ensures ctx_fold(c, a + b) == ctx_fold(ctx_fold(c, a), b),
+    decreases b.len(),
+{
+    if b.len() == 0 { assert(a + b =~= a); }
+    else { lemma_ctx_fold_append(c, a, b.drop_last()); assert((a + b).drop_last() =~= a + b.drop_last()); assert((a + b).last() == b.last()); }
+}
+pub proof fn lemma_emits_push(c0: Context, parts: Seq<BlockPartition>, p: BlockPartition, out: Seq<StmtSemi>, seg: Seq<StmtSemi>)
+    requires emits(c0, parts, out), seg.len() == part_stmts(p).len(), part_ok(ctx_fold(c0, flatten(parts)), p, seg),
+    ensures emits(c0, parts.push(p), out + seg),
+{
+    assert(parts.push(p).drop_last() =~= parts);
+    assert((out + seg).take((out + seg).len() - seg.len()) =~= out);
+    assert((out + seg).skip((out + seg).len() - seg.len()) =~= seg);
+}
+#[verifier::external_type_specification] #[verifier::external_body] pub struct ExAst(Ast);
+pub uninterp spec fn ast_nodes(a: Ast) -> Block;
+pub uninterp spec fn rebuilt(a: Ast, stmts: Seq<StmtSemi>) -> Ast;     // a.with_nodes(a.nodes().clone().with_stmts(stmts)).update_positions()
+"""
+VERIF2 = r"""
+#[verifier::external_body] pub fn parts_iter(parts: Vec<BlockPartition>) -> (r: std::iter::Peekable<std::vec::IntoIter<BlockPartition>>)
+    ensures pk_rest(&r) == parts@ { unimplemented!() /* parts.into_iter() */ }
+#[verifier::external_body] pub fn extend_group(stmts: &mut Vec<StmtSemi>, list: &Vec<(String, StmtSemi)>)
+    ensures final(stmts)@ == old(stmts)@ + stmts_of(list@) { unimplemented!() /* stmts.extend(list.iter().map(|x| x.1.clone())) */ }
+#[verifier::external_body] pub fn sort_by_name(list: &mut Vec<(String, StmtSemi)>)
+    ensures final(list)@.len() == old(list)@.len(), names_sorted(final(list)@),
+            cores(stmts_of(final(list)@)).to_multiset() == cores(stmts_of(old(list)@)).to_multiset(),
+            forall|i: int| 0 <= i < final(list)@.len() ==> exists|j: int| 0 <= j < old(list)@.len() && #[trigger] final(list)@[i] == old(list)@[j]
+{ unimplemented!() /* list.sort_by_key(|key| key.0.clone()): stable sort by the variable name (class B) */ }
+#[verifier::external_body] pub fn rebuild(input_ast: Ast, stmts: Vec<StmtSemi>) -> (r: Ast)
+    ensures r == rebuilt(input_ast, stmts@) { unimplemented!() /* input_ast.with_nodes(input_ast.nodes().clone().with_stmts(stmts)).update_positions() */ }
 """
 
 def items():
@@ -62,6 +146,7 @@ impl vstd::std_specs::cmp::PartialEqSpecImpl for GroupKind {
     ensures
         flatten(r@) == block_stmts(block), //# C12.partition_concatenates
         forall|i: int| 0 <= i < r@.len() ==> part_nonempty(#[trigger] r@[i]), //# C12.partition_nonempty
+        forall|i: int| 0 <= i < r@.len() ==> group_all_local(#[trigger] r@[i]),
 """, edits=[
             Hole("for stmt in block.stmts_with_semicolon() {", "let mut vx_it = verif::peekable(block.stmts_with_semicolon());\n    while let Some(stmt) = vx_it.next() {", kind="desugar",
                  why="`for x in it` written as its definition `while let Some(x) = it.next()` (Verus: for-loops do not support `continue`), through the Peekable wrapper that carries the ghost sequence"),
@@ -95,9 +180,79 @@ impl vstd::std_specs::cmp::PartialEqSpecImpl for GroupKind {
                  Stmt::LocalAssignment(l) => la_single(l) is Some && kind_of_expr(la_single(l)->Some_0.1) is Some ==> ident_of(la_single(l)->Some_0.0) is Some, _ => true },
             flatten(parts@) == all.take(k), //# C12.partition_loop
             forall|i: int| 0 <= i < parts@.len() ==> part_nonempty(#[trigger] parts@[i]), //# C12.partition_loop_nonempty
+            forall|i: int| 0 <= i < parts@.len() ==> group_all_local(#[trigger] parts@[i]),
         ensures k == all.len(),
         decreases pk_rest(&vx_it).len(),
 """, step="proof { k = k + 1; }"),
+        ]),
+        Raw(SPEC2, module="sort_requires"),
+        Raw(VERIF2, module="verif_sort"),
+        Raw("""
+impl UpdateLeadingTrivia for LocalAssignment {
+    open spec fn same_sem(&self, r: &Self) -> bool { la_core(*r) == la_core(*self) }
+    open spec fn lead_ok(&self, t: FormatTriviaType, r: &Self) -> bool { true }
+    #[verifier::external_body] fn update_leading_trivia(&self, leading_trivia: FormatTriviaType) -> (r: Self) { unimplemented!() }
+}
+pub assume_specification [Ast::nodes] (a: &Ast) -> (r: &Block) ensures *r == ast_nodes(*a);
+""", module="sort_requires"),
+        Fn(CTX, "should_format_node", impl_of="Context", mode="stub", sig_edits=[VN], proved_in="ctx", contract="ensures r == decision(*self, node.key()),"),
+        Fn(CTX, "check_toggle_formatting", impl_of="Context", mode="stub", sig_edits=[VN], contract="ensures r == toggle(*self, node.key()),"),
+        Fn(SR, "sort_requires", contract="""
+    requires forall|i: int| 0 <= i < block_stmts(&ast_nodes(input_ast)).len() ==> match (#[trigger] block_stmts(&ast_nodes(input_ast))[i]).0 {
+                 Stmt::LocalAssignment(l) => la_single(l) is Some && kind_of_expr(la_single(l)->Some_0.1) is Some ==> ident_of(la_single(l)->Some_0.0) is Some, _ => true },
+    ensures r == input_ast || exists|out: Seq<StmtSemi>| #[trigger] sorted_from(*ctx, block_stmts(&ast_nodes(input_ast)), out) && r == rebuilt(input_ast, out), //# C12.sorted_within_groups
+""", edits=[
+            Hole("for part in parts {", "let ghost all_parts = parts@; let ghost ctx0 = ctx; let ghost mut i: int = 0;\n    let mut vx_parts = verif_sort::parts_iter(parts);\n    while let Some(part) = vx_parts.next() {", kind="desugar",
+                 why="`for x in vec { … continue … }` written as `while let Some(x) = it.next()` (Verus: for-loops do not support `continue`)"),
+            Loop("while let Some(part) = vx_parts.next()", """
+        invariant
+            0 <= i <= all_parts.len(), pk_rest(&vx_parts) == all_parts.skip(i),
+            flatten(all_parts) == block_stmts(&ast_nodes(input_ast)),
+            forall|q: int| 0 <= q < all_parts.len() ==> part_nonempty(#[trigger] all_parts[q]) && group_all_local(all_parts[q]),
+            ctx == ctx_fold(ctx0, flatten(all_parts.take(i))),
+            emits(ctx0, all_parts.take(i), stmts@), //# C12.sort_loop
+        ensures i == all_parts.len(),
+        decreases pk_rest(&vx_parts).len(),
+""", step="proof { let seg = stmts@.skip(out0.len() as int); assert(stmts@ =~= out0 + seg); lemma_emits_push(ctx0, pfx, this_part, out0, seg); lemma_ctx_fold_append(ctx0, flatten(pfx), part_stmts(this_part)); assert(flatten(pfx.push(this_part)) =~= flatten(pfx) + part_stmts(this_part)); i = i + 1; }", enter="proof { assert(part == all_parts[i]); assert(all_parts.take(i + 1) =~= all_parts.take(i).push(all_parts[i])); assert(all_parts.take(i + 1).drop_last() =~= all_parts.take(i)); }\n let ghost out0 = stmts@; let ghost c_start = ctx; let ghost pfx = all_parts.take(i); let ghost this_part = part;"),
+            Hole("for (_, stmt) in list.iter() {", "for (_, stmt) in gi: list.iter() {", kind="ghost-name", why="names the ghost iterator"),
+            Loop("for (_, stmt) in gi: list.iter()", """
+                    invariant
+                        gi.seq().len() == list@.len(), forall|q: int| 0 <= q < list@.len() ==> *(#[trigger] gi.seq()[q]) == list@[q], c_start == ctx_fold(ctx0, flatten(pfx)),
+                        ctx == ctx_fold(c_start, stmts_of(list@).take(gi.index@ as int)),
+                        contains_ignored_stmt == any_skip(c_start, stmts_of(list@).take(gi.index@ as int)),
+""",
+                 enter="let ghost j = gi.index@ as int; let ghost sq = stmts_of(list@); proof { assert(sq.take(j + 1).drop_last() =~= sq.take(j)); assert(sq.take(j + 1).last() == sq[j]); assert(sq[j] == list@[j].1); assert(*stmt == list@[j].1); }"),
+            After("""                        contains_ignored_stmt = true;
+                    }
+                }""", "proof { let sq = stmts_of(list@); assert(sq.take(sq.len() as int) =~= sq); assert(part_stmts(this_part) == sq); }\n let ghost l0 = list@;"),
+            Hole("for stmt in list.iter() {", "for stmt in oi: list.iter() {", kind="ghost-name", why="names the ghost iterator"),
+            Loop("for stmt in oi: list.iter()", """
+                    invariant
+                        oi.seq().len() == list@.len(), forall|q: int| 0 <= q < list@.len() ==> *(#[trigger] oi.seq()[q]) == list@[q],
+                        ctx == ctx_fold(c_start, list@.take(oi.index@ as int)),
+""",
+                 enter="let ghost j = oi.index@ as int; proof { assert(list@.take(j + 1).drop_last() =~= list@.take(j)); assert(list@.take(j + 1).last() == list@[j]); assert(*stmt == list@[j]); }"),
+            After("stmts.append(&mut list)", "; proof { assert(l_other.take(l_other.len() as int) =~= l_other); assert(part_stmts(this_part) == l_other); assert(stmts@ =~= out0 + l_other); assert(stmts@.skip(out0.len() as int) =~= l_other); assert(part_ok(c_start, this_part, l_other)); }"),
+            Before("for stmt in oi: list.iter()", "let ghost l_other = list@;"),
+            Hole("stmts.extend(list.iter().map(|x| x.1.clone()))", "verif_sort::extend_group(&mut stmts, &list)", kind="wrapper", why="Vec::extend(iter().map(closure))", count=2),
+            After("""                    verif_sort::extend_group(&mut stmts, &list);
+                    continue;""".replace("continue;", ""), "proof { assert(stmts@ =~= out0 + stmts_of(l0)); assert(stmts@.skip(out0.len() as int) =~= stmts_of(l0)); assert(part_ok(c_start, this_part, stmts_of(l0))); }"),
+            Hole("""local_assignment
+                            .local_token()
+                            .leading_trivia()
+                            .cloned()
+                            .collect()""", "verif::hole_vec_token()", why="iterator chain: leading trivia of the first member's `local`"),
+            Hole("list.sort_by_key(|key| key.0.clone());", "verif_sort::sort_by_name(&mut list);", kind="wrapper", why="slice::sort_by_key with a closure (stable sort by name: class B)"),
+            Before("let block = block.clone().with_stmts(stmts);", "proof { assert(all_parts.take(all_parts.len() as int) =~= all_parts); assert(sorted_from(ctx0, block_stmts(&ast_nodes(input_ast)), stmts@)); }"),
+            Hole("""let block = block.clone().with_stmts(stmts);
+    input_ast.with_nodes(block).update_positions()""", "verif_sort::rebuild(input_ast, stmts)", kind="wrapper", why="Block::clone / with_stmts / Ast::with_nodes / update_positions folded into one assumed constructor"),
+            # sorted branch: the two write-throughs keep every core and every name; the sort permutes
+            Before("// Sort our list of requires", "let ghost l1 = list@; proof { assert(l1.len() == l0.len()); assert(forall|q: int| 0 <= q < l1.len() ==> core_of(#[trigger] l1[q].1) == core_of(l0[q].1)); assert(cores(stmts_of(l1)) =~= cores(stmts_of(l0))); assert(all_local(l1)); }"),
+            After("verif_sort::sort_by_name(&mut list);", "let ghost l2 = list@; proof { assert(l2.len() > 0); assert(l2[0].1.0 is LocalAssignment); }"),
+            Before("// Add to the list of stmts", "let ghost l3 = list@; proof { assert(l3.len() == l2.len()); assert(forall|q: int| 0 <= q < l3.len() ==> core_of(#[trigger] l3[q].1) == core_of(l2[q].1) && l3[q].0 == l2[q].0); assert(cores(stmts_of(l3)) =~= cores(stmts_of(l2))); assert(names_sorted(l3)); }"),
+            After("""// Add to the list of stmts
+                verif_sort::extend_group(&mut stmts, &list)""", "; proof { assert(stmts@.skip(out0.len() as int) =~= stmts_of(l3)); assert(!any_skip(c_start, stmts_of(l0))); assert(part_ok(c_start, this_part, stmts_of(l3))); }"),
+
         ]),
     ]
     return its
@@ -105,6 +260,8 @@ impl vstd::std_specs::cmp::PartialEqSpecImpl for GroupKind {
 LABELS = {
     "C12.partition_concatenates": dict(props=["C12", "C02"], text="partition_nodes_into_groups: the parts, concatenated in order, are exactly the block's statements (nothing dropped, duplicated or moved)"),
     "C12.partition_nonempty": dict(props=["C12"], text="partition_nodes_into_groups never produces an empty part"),
+    "C12.sorted_within_groups": dict(props=["C12", "C08", "C09", "C02"], text="sort_requires: the AST is returned untouched, or rebuilt from statements that are, part by part in place: a non-require part verbatim; a require group containing a statement that is ignored (directive or ignore start/end region, folded in statement order) or outside the range verbatim; otherwise a permutation of the group (same statements modulo the leading trivia of `local`) ordered by name"),
+    "C12.sort_loop": dict(props=["C12", "C08", "C09"], text="sort_requires loop invariant: what has been emitted so far is what the parts consumed so far allow, under the context folded so far"),
     "C12.partition_loop": dict(props=["C12", "C02"], text="loop invariant: the parts built so far concatenate to the statements consumed so far"),
     "C12.partition_loop_nonempty": dict(props=["C12"], text="loop invariant: no part is empty"),
 }
